@@ -260,7 +260,10 @@ def pmap(
     items = list(items) if not isinstance(items, list) else items
     if not items:
         return
-    procs = max(1, min(procs, len(items)))
+    # One pool per run, forked once at full width before any helper thread
+    # exists in this process (forking a second pool later, next to the first
+    # pool's handler threads, is the classic fork-with-threads hazard).
+    procs = max(1, procs)
     if procs == 1:
         if initfn is not None:
             initfn()
